@@ -16,6 +16,11 @@ def parseCmd (ts : List String) : Option XCmd :=
   | ["cmd", "BT", t, o] => some (.c (.bp (.time (natD t) (natD o != 0))))
   | ["cmd", "BC", n, o] => some (.c (.bp (.count (natD n) (natD o != 0))))
   | ["cmd", "BK", k, o] => some (.c (.bp (.kind (natD k) (natD o != 0))))
+  | ["cmd", "BM", x, a, op, thr2, o] =>
+    let c : Cmp := match op with
+      | "gt" => .gt | "ge" => .ge | "lt" => .lt | "le" => .le | "eq" => .eq | _ => .ne
+    some (.c (.bp (.metric (natD x) (natD a) c (intD thr2) (natD o != 0))))
+  | ["cmd", "BX", n, o] => some (.c (.bp (.countEq (natD n) (natD o != 0))))
   | ["cmd", "CLR"] => some (.c .clear)
   | ["cmd", "HP", k] => some (.c (.pauseAt (natD k)))
   | ["cmd", "RST"] => some (.c .reset)
@@ -33,6 +38,17 @@ def procExt : Ext PS where
                lastKind := (sp.kind, id) :: ps.lastKind.filter (fun p => p.1 != sp.kind) },
      { sp with tag := tag })
   reseat ps n := { ps with nid := ps.nid + n }
+
+/-- the attributes of a scripted entity that a MetricBreakpoint can watch (hv/engine_harness.py):
+    0 `level` (set by `M` actions, `None` until then), 1 `inflight` (processes started and not finished),
+    2 `_crashed` (a bool: False compares equal to 0), anything else: no such attribute -/
+instance : Probe PS where
+  read ps ent attr :=
+    match attr with
+    | 0 => levelOf ps.level ent
+    | 1 => some ((ps.procs.filter (fun p => p.ent == ent && !p.done)).length : Nat)
+    | 2 => some (if ps.crashed.contains ent then 1 else 0)
+    | _ => none
 
 def stLine (z : Sess PS) (hd : String := "st") : String :=
   s!"{hd} {z.s.now} {z.s.processed} {if z.paused then 1 else 0} {if z.running then 1 else 0}"
